@@ -218,10 +218,11 @@ class SqlStorage(MutableMapping):
                           .format(seq=",".join(['?'] * len(metadata_any)))
                 else:
                     # all of the given metadata
-                    params = list(metadata_all)
-                    params.append(len(metadata_all))
+                    params = list(set(metadata_all))
+                    num_tags = len(params)
+                    params.append(num_tags)
                     sql = "SELECT id, name, uri FROM pyro_names WHERE id IN (SELECT object FROM pyro_metadata WHERE metadata IN ({seq}) " \
-                          "GROUP BY object HAVING COUNT(metadata)=?)".format(seq=",".join(['?'] * len(metadata_all)))
+                          "GROUP BY object HAVING COUNT(metadata)=?)".format(seq=",".join(['?'] * num_tags))
                 result = db.execute(sql, params).fetchall()
                 if return_metadata:
                     names = {}
